@@ -325,6 +325,8 @@ pub fn cond(j: &J) -> Condition {
                 c = c.add(cond(m));
             } else if mk == "opt" {
                 c = c.add_option(Some(expr(&m[1])));
+            } else if mk == "optg" {
+                c = c.add_option(Some(cond(&m[1])));
             } else {
                 c = c.add(expr(m));
             }
